@@ -1087,11 +1087,21 @@ Definition classify (size_t align_t size_u align_u : N) : layout :=
   then (if is_zst size_t then LZst else LDiff)
   else LSame.
 
+(** [needs_t] / [needs_u]: whether the element type has drop glue ([mem::needs_drop]).  A
+    value of a type without drop glue is dropped by doing nothing, which cannot be observed:
+    its drop events are removed from the model's observable log. *)
 Inductive tcase :=
-  TCase (k : kind) (size_t align_t size_u align_u : N) (ids : list N) (extra : nat) (off : N) (fl : failspec).
+  TCase (k : kind) (size_t align_t size_u align_u : N) (needs_t needs_u : bool)
+        (ids : list N) (extra : nat) (off : N) (fl : failspec).
 Definition case_of (c : tcase) : case :=
   match c with
-  | TCase k st al su au ids extra off fl => Case k (classify st al su au) ids extra off fl
+  | TCase k st al su au _ _ ids extra off fl => Case k (classify st al su au) ids extra off fl
+  end.
+Definition visible (needs_t needs_u : bool) (e : oevent) : bool :=
+  match e with ODrop ST _ => needs_t | ODrop SU _ => needs_u | _ => true end.
+Definition run_tcase (c : tcase) : list oevent :=
+  match c with
+  | TCase _ _ _ _ _ nt nu _ _ _ _ => filter (visible nt nu) (run_case (case_of c))
   end.
 
 (** *** Canonical summary of an observation (order of clean-up drops is not compared) *)
@@ -1156,8 +1166,19 @@ Definition agree (cr : case * list oevent) : bool :=
 Definition agree_strict (cr : case * list oevent) : bool :=
   let (c, real) := cr in list_eqb oevent_eqb (run_case c) real.
 
-Definition agree_t (cr : tcase * list oevent) : bool := agree (case_of (fst cr), snd cr).
-Definition agree_strict_t (cr : tcase * list oevent) : bool := agree_strict (case_of (fst cr), snd cr).
+Definition agree_t (cr : tcase * list oevent) : bool :=
+  let (c, real) := cr in
+  let ip := inplace_case (case_of c) in
+  list_eqb (list_eqb N.eqb) (summarize ip (run_tcase c)) (summarize ip real).
+Definition agree_strict_t (cr : tcase * list oevent) : bool :=
+  let (c, real) := cr in list_eqb oevent_eqb (run_tcase c) real.
+
+Example run_tcase_example :
+  run_tcase (TCase KVec 16 8 16 8 false true [10; 11; 12; 13]%N 0 100 (FailAt 12 RErr))
+  = [OCall 10; OCall 11; OCall 12; ODrop SU 110; ODrop SU 111; ODealloc; OReturn RErr; OBalance 0]%N /\
+  run_tcase (TCase KVec 16 8 16 8 true false [10; 11; 12; 13]%N 0 100 (FailAt 12 RErr))
+  = [OCall 10; OCall 11; OCall 12; ODrop ST 12; ODrop ST 13; ODealloc; OReturn RErr; OBalance 0]%N.
+Proof. vm_compute. split; reflexivity. Qed.
 
 Example classify_examples :
   classify 16 8 16 8 = LSame /\ classify 16 8 16 4 = LDiff /\ classify 8 4 8 8 = LDiff /\
